@@ -430,6 +430,10 @@ class C09(Prop):
             kind = {"pe": "pe", "dotnet": "pe", "elf": "elf", "macho": "fat" if "fat" in name else "macho"}[m]
             c = self.gen_explore(rng.fork("synth%d" % i), (pth, open(pth, "rb").read(), kind), True)
             c.update({"mutation": "synthetic", "what": [name]})
+            # no nested loops over collections of tens of thousands of elements: each iteration of the outer loop
+            # clones the inner collection (evaluate_ops returns value.clone()), which is quadratic and takes minutes in
+            # the debug build — slow by construction of the rule, not a crash
+            c["rules"] = [r for r in c["rules"] if r["cond"].count("for ") <= 1]
             cases.append(c)
         # systematic: every .NET metadata index column x boundary values (0, 1, rows-1, rows, rows+1, rows+2, max; heap
         # sizes likewise); all rows of small tables, first/last two rows of the others (all rows in the thorough tier)
@@ -475,8 +479,26 @@ class C09(Prop):
         for what, data in mg.dex_class_data_family(real[0] if real else None):
             cases.append({"kind": "explore", "base_hex": data.hex(), "fkind": "dex", "mutation": "dex-class-data", "what": [what],
                           "edits": [], "layout": None, "params": {"process_memory": False}, "rules": drules})
+        # systematic: every module function with an integer parameter x i64 extremes (and, for pe, the values around each
+        # section's virtual / raw start and end), on a few representative assets, process_memory off and on
+        reps = {}
+        for a in sorted(fmt, key=lambda a: (len(a[1]), a[0])):
+            g = "macho" if a[2] in ("macho", "fat") else a[2]
+            if len(reps.setdefault(g, [])) < 2 and len(a[1]) > 300:
+                reps[g].append(a)
+        reps.setdefault("pe", []).extend([a for a in fmt if a[0].endswith("/pe/ord_and_delay.exe") or a[0].endswith("/dotnet/types.exe")])
+        for g, mods in (("pe", ["pe", "math", "hash", "string"]), ("macho", ["macho"]), ("dex", ["dex"]), ("elf", ["math", "hash"])):
+            for a in reps.get(g, []):
+                for m in mods:
+                    conds = mg.function_extreme_rules(self.info, m)
+                    for k in range(0, len(conds), 12):
+                        for pm in (False, True):
+                            cases.append({"kind": "explore", "asset": a[0], "fkind": a[2], "mutation": "function-extremes",
+                                          "what": ["%s functions %d.." % (m, k)], "edits": [], "layout": None,
+                                          "params": {"process_memory": pm},
+                                          "rules": [{"tag": "x%d" % j, "imports": [m], "cond": c} for j, c in enumerate(conds[k:k + 12])]})
         n_explore += sum(1 for c in cases if c["mutation"] in ("dotnet-index", "macho-entry-sweep", "count-field", "version-string",
-                                                               "dex-class-data"))
+                                                               "dex-class-data", "function-extremes"))
         i = 0
         while len(cases) < n_explore:
             r = rng.fork("m%d" % i)
